@@ -139,6 +139,7 @@ structure St where
   heap    : Nat → LockObj
   next    : Nat                          -- next fresh lock object
   nextId  : Nat                          -- next fresh session id (`generate_id`)
+  appear  : List Nat                     -- ghost: ids in the order in which they first showed up in a table
   thr     : Nat → Thr
   sw      : Nat → Sweeper
   now     : Nat
@@ -163,6 +164,7 @@ def init (ids : List (Option (Nat × Nat) × Bool)) (thrs : List (Nat × List Op
   heap := fun _ => {}
   next := lockIndex ids ids.length
   nextId := ids.length
+  appear := List.range ids.length
   thr := fun i => match thrs[i]? with | some (x, p) => { sid := x, prog := p } | none => {}
   sw := fun _ => {}
   now := now
@@ -178,14 +180,18 @@ def setLock (s : St) (l : Nat) (o : LockObj) : St :=
 def setSw (s : St) (k : Nat) (w : Sweeper) : St :=
   { s with sw := fun j => if j = k then w else s.sw j }
 
+def noteId (l : List Nat) (x : Nat) : List Nat := if l.contains x then l else l ++ [x]
+
 def setCache (s : St) (x : Nat) (v : Option (Nat × Nat)) : St :=
   { s with cache := fun y => if y = x then v else s.cache y,
+           appear := match v with | none => s.appear | some _ => noteId s.appear x,
            ckeys := match v with
              | none => s.ckeys.erase x
              | some _ => if (s.cache x).isSome then s.ckeys else s.ckeys ++ [x] }
 
 def setTable (s : St) (x : Nat) (v : Option Nat) : St :=
   { s with table := fun y => if y = x then v else s.table y,
+           appear := match v with | none => s.appear | some _ => noteId s.appear x,
            lkeys := match v with
              | none => s.lkeys.erase x
              | some _ => if (s.table x).isSome then s.lkeys else s.lkeys ++ [x] }
@@ -422,17 +428,22 @@ def statusCode : Pc → Nat
   | .done => 1 | .gone => 2 | .crashed => 3 | _ => 0
 
 /-- The observable shared state after a turn:
-    number of rows; one row per id that has a cache entry or a lock-table entry: the id, the cache entry
+    number of rows; one row per id that has a cache entry or a lock-table entry: its name (`obsRows`), the cache entry
     (0 | 1, counter, expiry), the lock-table entry (0 | lock object + 1); number of lock objects; per
     lock object owner and count; lost flag; per request thread its status; per sweeper crashed flag
     and number of sweeps started.  (An id that `generate_id` has produced but that is in neither table
     yet is not observable.) -/
-def obsRows (s : St) : List (List Nat) :=
-  (List.range s.nextId).filterMap fun x =>
-    if (s.cache x).isSome || (s.table x).isSome then
-      some ([x] ++ (match s.cache x with | some (d, e) => [1, s.dicts d, e] | none => [0]) ++
-            [match s.table x with | some l => l + 1 | none => 0])
-    else none
+def obsRowsFrom (s : St) : Nat → List Nat → List (List Nat)
+  | _, [] => []
+  | idx, x :: rest =>
+    (if (s.cache x).isSome || (s.table x).isSome then
+      [[idx] ++ (match s.cache x with | some (d, e) => [1, s.dicts d, e] | none => [0]) ++
+            [match s.table x with | some l => l + 1 | none => 0]]
+     else []) ++ obsRowsFrom s (idx + 1) rest
+
+/-- one row per id that currently has a cache entry or a lock-table entry; an id is named by the
+    position at which it first showed up in a table (not by what `generate_id` returned, nor by when) -/
+def obsRows (s : St) : List (List Nat) := obsRowsFrom s 0 s.appear
 
 def obs (n nsw : Nat) (s : St) : List Nat :=
   let rows := obsRows s
@@ -449,7 +460,7 @@ def fin (n : Nat) (s : St) : List Nat :=
 
 /-- everything the future behaviour depends on (for the removal of duplicates only) -/
 def key (n nsw : Nat) (s : St) : List Nat :=
-  obs n nsw s ++ [s.nextId, s.nextD, s.now, s.ckeys.length] ++ s.ckeys ++ [s.lkeys.length] ++ s.lkeys ++
+  obs n nsw s ++ [s.nextId, s.nextD, s.now, s.appear.length] ++ s.appear ++ [s.ckeys.length] ++ s.ckeys ++ [s.lkeys.length] ++ s.lkeys ++
   (List.range s.nextD).map s.dicts ++ (List.range s.nextId).map s.version ++
   (List.range s.nextId).flatMap (fun x => match s.cache x with | some (d, _) => [d] | none => [0]) ++
   (List.range n).flatMap (fun i =>
@@ -466,15 +477,19 @@ def key (n nsw : Nat) (s : St) : List Nat :=
 
 /-! ### labels for the fast path of the admission test
 
-    `(0, 0)` the whole cache, `(0, x+1)` the cache entry of id `x`, `(1, 0)` the whole lock table,
-    `(1, x+1)` the lock-table entry of id `x`, `(2, l+1)` lock object `l`, `(3, 0)` the handler's data. -/
+    `(0, 0)` the whole cache, `(0, n)` the cache entry of the id named `n - 1` (`idName`; 9999: an id that
+    is in no table yet), `(1, 0)` the whole lock table, `(1, n)` the lock-table entry of that id, `(2, l+1)` lock object `l`, `(3, 0)` the handler's data. -/
+def idName (s : St) (x : Nat) : Nat :=
+  let i := s.appear.findIdx (· == x)
+  if i < s.appear.length then i + 1 else 9999
+
 def lab (s : St) (a : Actor) : Option (Nat × Nat) :=
   match a with
   | .req i =>
     let t := s.thr i
     match t.pc with
-    | .init | .gex | .load | .del | .rdel | .rex | .save => some (0, t.sid + 1)
-    | .setdef | .chk | .rlookup | .lookup => some (1, t.sid + 1)
+    | .init | .gex | .load | .del | .rdel | .rex | .save => some (0, idName s t.sid)
+    | .setdef | .chk | .rlookup | .lookup => some (1, idName s t.sid)
     | .acq | .rel0 => some (2, t.my + 1)
     | .rrel | .rel => some (2, t.r + 1)
     | .write | .clr => some (3, 0)
@@ -483,9 +498,9 @@ def lab (s : St) (a : Actor) : Option (Nat × Nat) :=
     let w := s.sw k
     match w.pc with
     | .copy => some (0, 0)
-    | .del | .chk => some (0, w.cur + 1)
+    | .del | .chk => some (0, idName s w.cur)
     | .list => some (1, 0)
-    | .get | .vfy | .pop => some (1, w.cur + 1)
+    | .get | .vfy | .pop => some (1, idName s w.cur)
     | .try_ | .rel => some (2, w.lk + 1)
     | _ => none
   | .tick _ => none
